@@ -73,7 +73,7 @@ def _selection_env(fx, it, scores, micro, log):
 
     def evaluate(m, width, height):
         t = tag_of(m)
-        log.append(('eval', t[1] if t else None))
+        log.append(('eval', t[1] if t else None, width, height))
         if t is None or isinstance(t[2], tuple):
             raise Unknown('a candidate was evaluated unmasked or masked twice')
         return scores[t[1]]
